@@ -10,7 +10,9 @@ ID = "C10"
 LEVEL = "exploration"
 RULE = ("case = (mode, history) with mode in {explicit-collection, automatic-collection} and history a vector of alloc/free/resize/recode/write/"
         "link/root/unroot/gc/check-all requests, sizes drawn from a boundary set covering every fixed class edge, the fixed/mixed boundary (256/257), "
-        "page and 16-page-group edges and 1 MB; each history runs in a fork()ed child on the real allocator (both the compiler flavour and "
+        "page and 16-page-group edges and 1 MB; one history in five is a fragmentation history (33-120 large blocks of pairwise distinct multi-page "
+        "piece sizes separated by live spacers, freed in ascending / descending / shuffled order so that that many distinct free sizes exist at once, "
+        "re-requested exactly in one of the three orders, then everything freed); each history runs in a fork()ed child on the real allocator (both the compiler flavour and "
         "-DFOAM_RTS) with a model {id -> address(hidden), size, code, byte pattern, links, rooted}; after every step: alignment, stoSize >= request, "
         "disjointness from all live blocks, stoCode, byte patterns, resize prefix, survival of everything reachable from static roots after stoGc, "
         "and stoAudit(). Non-trivial = a block was freed and a later allocation had the same true size class AND a collection ran with both "
@@ -83,6 +85,7 @@ def _worker(args):
     ev.evaluations = st.get("cases", 0)
     ev.classes["histories_" + flavour] += st.get("cases", 0)
     ev.classes["steps_" + flavour] += st.get("steps", 0)
+    ev.classes["fragmentation_histories_" + flavour] += st.get("frag_histories", 0)
     ev.nontrivial = set("%s-%d-%d" % (flavour, idx, i) for i in range(st.get("nontrivial", 0)))
     fails = []
     if "C10-DONE" not in out:
